@@ -51,6 +51,9 @@ def result_of(kind, kw):
         return bool(n & 1)
     if kind == "str":
         return canon_kw(kw)
+    if kind == "big":
+        # > 8 KiB per batch of a few settings: several buffered-write chunks
+        return (canon_kw(kw) + "|") * 300
     if kind == "tuple2":
         return (n, canon_kw(kw))
     if kind == "tuple3":
